@@ -906,6 +906,47 @@ def derive_start_clock_branch(fns):
     raise BrokenTie("_write_times: no `if hrs <op> <n>:` AM/PM branch found")
 
 
+CLAMP = {}
+
+
+def derive_required_pressure_clamp(fns):
+    """the lower limit `_write_options` applies to REQUIRED PRESSURE: (compared AFTER the conversion to file units?, the
+    legal side is `>=`?, bound, the substitute is in FILE units?, substitute)"""
+    fn = fns["_write_options"]
+    for n in ast.walk(fn):
+        if not (isinstance(n, ast.If) and isinstance(n.test, ast.Compare) and len(n.test.ops) == 1 and isinstance(n.test.left, ast.Name)
+                and n.test.left.id == "required_pressure" and isinstance(n.test.comparators[0], ast.Constant)):
+            continue
+        name = n.test.left.id
+        bound = float(n.test.comparators[0].value)
+        op = type(n.test.ops[0])
+        if op in (ast.GtE, ast.Gt):
+            legal_ge, clamp_arm = op is ast.GtE, n.orelse
+        elif op in (ast.Lt, ast.LtE):
+            legal_ge, clamp_arm = op is ast.Lt, n.body
+        else:
+            raise BrokenTie("_write_options: REQUIRED PRESSURE limit uses an operator the model does not know")
+        conv_assign = [a for a in ast.walk(fn) if isinstance(a, ast.Assign) and isinstance(a.targets[0], ast.Name) and a.targets[0].id == name
+                       and isinstance(a.value, ast.Call) and isinstance(a.value.func, ast.Name) and a.value.func.id == "from_si"]
+        if not conv_assign:
+            raise BrokenTie("_write_options: REQUIRED PRESSURE is no longer converted with from_si into `required_pressure`")
+        after = all(a.lineno < n.lineno for a in conv_assign)
+        sub, sub_file = None, None
+        for st in clamp_arm:
+            for c in ast.walk(st):
+                if isinstance(c, ast.Call) and isinstance(c.func, ast.Attribute) and c.func.attr == "format":
+                    nums = [a.value for a in c.args if isinstance(a, ast.Constant) and isinstance(a.value, (int, float)) and not isinstance(a.value, bool)]
+                    if nums:
+                        sub, sub_file = float(nums[0]), True
+            if isinstance(st, ast.Assign) and isinstance(st.targets[0], ast.Name) and st.targets[0].id == name and isinstance(st.value, ast.Constant):
+                sub = float(st.value.value)
+                sub_file = not any(a.lineno > st.lineno for a in conv_assign)
+        if sub is None:
+            raise BrokenTie("_write_options: cannot tell what REQUIRED PRESSURE is replaced by below the limit")
+        return (after, legal_ge, bound, sub_file, sub)
+    raise BrokenTie("_write_options: the lower limit of REQUIRED PRESSURE (`if required_pressure >= 0.1`) was not found")
+
+
 def read_sections_and_order(path=None):
     """`_INP_SECTIONS` and the order in which `InpFile.read` calls the section readers (ast)"""
     tree = ast.parse(open(path or os.path.join(vlib.REPO, "wntr", "epanet", "io.py")).read())
@@ -1405,6 +1446,13 @@ def gen_schema_inp_lean(wntr, rows, kw):
     out.append("/-- the hand-written expectation (harness/props/c12.py ORDER_SENSITIVE) -/\ndef orderSensitiveExpected : List String := %s\n" % _ll(ORDER_SENSITIVE))
     out.append("/-- the special cases of `_read_times` (ast): (index of the word tested, word, attribute); every other line sets `<w0>_<w1>` -/")
     out.append("def timesDispatch : List (Nat × String × String) := [%s]\n" % ", ".join("(%d, %s, %s)" % (i, _ls(w), _ls(a)) for i, w, a in derive_times_dispatch(FNS_CACHE["fns"])))
+    cl = derive_required_pressure_clamp(FNS_CACHE["fns"])
+    CLAMP["required_pressure"] = cl
+    from fractions import Fraction as _Fr
+    q = lambda v: "(%d : Rat) / %d" % (_Fr(str(v)).numerator, _Fr(str(v)).denominator)
+    out.append("/-- the lower limit of REQUIRED PRESSURE in `_write_options` (ast): compared after the conversion to file units, the legal side is `>=`, bound, the substitute is in file units, substitute -/")
+    out.append("def requiredPressureClamp : Bool × Bool × Rat × Bool × Rat := (%s, %s, %s, %s, %s)\n" % (
+        "true" if cl[0] else "false", "true" if cl[1] else "false", q(cl[2]), "true" if cl[3] else "false", q(cl[4])))
     b = derive_start_clock_branch(FNS_CACHE["fns"])
     out.append("/-- the AM/PM branch of `_write_times` (ast): (operator 0 `<` 1 `<=` 2 `>` 3 `>=`, bound, the then-arm writes AM, hours subtracted in the then-arm, in the else-arm) -/")
     out.append("def startClockBranch : Nat × Int × Bool × Int × Int := (%d, %d, %s, %d, %d)\n" % (b[0], b[1], "true" if b[2] else "false", b[3], b[4]))
@@ -1601,6 +1649,7 @@ class Comparer:
 
     def __init__(self, prec, wn0, units, version, m0):
         self.p, self.wn, self.u, self.v, self.m0 = prec, wn0, units, version, m0
+        self.clamp = CLAMP.get("required_pressure")
         self.out = []  # (key, path, old, new, note)
 
     def fail(self, key, path, old, new, note=""):
@@ -1725,6 +1774,18 @@ class Comparer:
                     self.fail("options-pattern-default-1", p, x[k], y[k], "a pattern named '1' exists and no default pattern is set")
                 elif x[k] is None or y[k] is None or isinstance(x[k], str) or isinstance(y[k], str):
                     x[k] == y[k] or self.fail("%s-%s-changed" % (sec, k), p, x[k], y[k])
+                elif g == "hydraulic" and k == "required_pressure" and self.clamp is not None:
+                    # EPANET's lower limit (in FILE units): a value below it is written as the limit -- the writer's documented
+                    # behaviour (it warns); a value that is legal in file units must come back within the file precision
+                    got = self.p.lookup("Options.hydraulic", "required_pressure")
+                    row = got[0] if got else None
+                    fx = self.p.to_file(row, self.u, self.wn, x[k]) if row else x[k]
+                    if fx < self.clamp[2] * (1 - 1e-12):
+                        U = self.p.wntr.epanet.util
+                        lim = float(U.to_si(U.FlowUnits[self.u], self.clamp[4], U.HydParam.Pressure))
+                        self.num(sec, "Options." + g, k, p, lim, y[k], label="required_pressure-below-limit")
+                    else:
+                        self.num(sec, "Options." + g, k, p, x[k], y[k])
                 else:
                     self.num(sec, "Options." + g, k, p, x[k], y[k])
         self.controls(c0, c2)
@@ -1927,6 +1988,9 @@ def directed_specs():
         for k in (1, 2):
             sp["valves"].append({"name": "G%d" % k, "a": "J1", "b": "J2", "diam": 0.2, "type": "GPV", "mloss": 0.0, "setting": "GC", "status": "ACTIVE", "vertices": []})
     mk("shared-curves", shared)
+    # PDA with a required pressure on both sides of EPANET's lower limit 0.1 (psi in the US systems = 0.07034 m, m in the metric ones)
+    for rp in (0.0705, 0.08, 0.0965, 0.1005, 0.15):
+        mk("required-pressure-%g" % rp, lambda sp, rp=rp: sp["options"]["hydraulic"].update(demand_model="PDA", required_pressure=rp, minimum_pressure=0.0, pressure_exponent=0.5))
     # every clock-time field at the AM/PM boundaries of the day (START CLOCKTIME, a CLOCKTIME control, a SYSTEM CLOCKTIME premise)
     for t in (0, 11 * 3600 + 3599, 43200, 45000, 12 * 3600 + 3599, 46800, 86399):
         mk("clock-%d" % t, lambda sp, t=t: (sp["options"].update(time={"start_clocktime": t}),
@@ -2157,7 +2221,7 @@ class C12(Check):
             yield ("directed:" + label, sp, None, None)
         n = 40 if ctx.quick else 150
         for i in range(n):
-            yield ("gen%d" % i, G.gen_spec(ctx.rng, size=1 if i % 3 else 2, inp_only=True, share_curves=True, control_attrs=True, clock_boundaries=True), None, None)
+            yield ("gen%d" % i, G.gen_spec(ctx.rng, size=1 if i % 3 else 2, inp_only=True, share_curves=True, control_attrs=True, clock_boundaries=True, option_thresholds=True), None, None)
 
     def correspondence(self, ctx):
         wntr = vlib.import_wntr()
@@ -2185,7 +2249,7 @@ class C12(Check):
                     nontriv = bool(sp["controls"]) or bool(sp["sources"]) or bool(sp["curves"]) or any(len(j["demands"] or []) > 1 for j in sp["junctions"])
                     if u0:
                         units = [u0]
-                    elif label == "directed:control-attributes":
+                    elif label == "directed:control-attributes" or label.startswith("directed:required-pressure"):
                         units = list(UNITS)
                     elif label.startswith("directed"):
                         units = [UNITS[(ctx.seed + ci) % 10], UNITS[(ctx.seed + ci + 5) % 10]]
@@ -2562,7 +2626,7 @@ class C12(Check):
         try:
             with warnings.catch_warnings():
                 warnings.simplefilter("ignore")
-                specs = directed_specs() + [("wide%d" % i, G.gen_spec(ctx.rng, size=2, inp_only=True, share_curves=True, control_attrs=True, clock_boundaries=True)) for i in range(6 if ctx.quick else 25)]
+                specs = directed_specs() + [("wide%d" % i, G.gen_spec(ctx.rng, size=2, inp_only=True, share_curves=True, control_attrs=True, clock_boundaries=True, option_thresholds=True)) for i in range(6 if ctx.quick else 25)]
                 for label, sp in specs:
                     wn = G.realise(wntr, sp)
                     for u in UNITS:
@@ -2582,7 +2646,11 @@ class C12(Check):
         r = json.load(open(path if os.path.isabs(path) else os.path.join(vlib.VERIF, path)))
         rp = r.get("replay", {})
         print(json.dumps({k: v for k, v in r.items() if k != "replay"}, indent=1)[:2000])
-        rows, _, _ = read_io_tables(wntr)
+        rows, fns_, _ = read_io_tables(wntr)
+        try:
+            CLAMP["required_pressure"] = derive_required_pressure_clamp(fns_)
+        except BrokenTie:
+            pass
         self.file_requests = []
         workdir = os.path.join(WORK, "replay-%d" % os.getpid())
         os.makedirs(workdir, exist_ok=True)
